@@ -27,6 +27,13 @@ for f in sorted(glob.glob('/tmp/evalmut-C*-*.json')):
     d=f'/verif/seeded/{ident}'
     os.makedirs(d,exist_ok=True)
     shutil.copy(f'{src}/patch{i}.diff',f'{d}/patch.diff')
+    rebased=None
+    if os.path.exists(f'/verif/dev/rebased/{ident}.diff'):
+        # a later fix: commit touched the same lines; the change was carried over by hand
+        # and confirmed again (suite 1032/0, demo fails with it, passes without)
+        shutil.copy(f'{src}/patch{i}.diff',f'{d}/patch.as-written.diff')
+        shutil.copy(f'/verif/dev/rebased/{ident}.diff',f'{d}/patch.diff')
+        rebased="patch.diff is the author's change carried over by hand onto /repo HEAD ff69527 (a later fix: commit touched the same lines; the original is patch.as-written.diff); confirmed again: suite 1032 passed / 0 failed with it, demo.rs fails with it and passes without"
     shutil.copy(f'{src}/demo{i}.rs',f'{d}/demo.rs')
     agent_meta=open(f'{src}/meta{i}.txt').read().strip()
     det=r.get('detection',{})
@@ -39,6 +46,7 @@ for f in sorted(glob.glob('/tmp/evalmut-C*-*.json')):
       "evaluated_on_verif_commit": r.get('verif_snapshot') or SNAPSHOT_BY_ROUND.get(tag, 'unknown'),
       "targeted_check_quick_on_final_snapshot": FINAL.get(ident),
       "breaks": prop,
+      "rebased": rebased,
       "description_by_author": agent_meta,
       "confirmed": {
          "repository_suite_with_patch": r['suite_with_patch'],
